@@ -82,21 +82,21 @@ Definition c04_all_exits_full : Prop :=
 Theorem c04_nat_all_exits_partial : forall k cut, k < 32 -> cut <= 10 ->
   sess_ok cfg_nat ex_state k cut = true /\ sess_ok cfg_nat k_empty k cut = true.
 Proof.
-  intros k cut Hk Hc. split; apply (sweep_sound _ _ 32 10); try assumption; vm_compute; reflexivity.
+  intros k cut Hk Hc. split; apply (sweep_sound _ _ 32 10); try assumption; vm_cast_no_check (eq_refl true).
 Qed.
 Print Assumptions c04_nat_all_exits_partial.
 
 Theorem c04_tproxy_all_exits_partial : forall k cut, k < 62 -> cut <= 10 ->
   sess_ok cfg_tproxy ex_state k cut = true /\ sess_ok cfg_tproxy k_empty k cut = true.
 Proof.
-  intros k cut Hk Hc. split; apply (sweep_sound _ _ 62 10); try assumption; vm_compute; reflexivity.
+  intros k cut Hk Hc. split; apply (sweep_sound _ _ 62 10); try assumption; vm_cast_no_check (eq_refl true).
 Qed.
 Print Assumptions c04_tproxy_all_exits_partial.
 
 Theorem c04_nft_all_exits_partial : forall k cut, k < 24 -> cut <= 10 ->
   sess_ok cfg_nft ex_state k cut = true /\ sess_ok cfg_nft k_empty k cut = true.
 Proof.
-  intros k cut Hk Hc. split; apply (sweep_sound _ _ 24 10); try assumption; vm_compute; reflexivity.
+  intros k cut Hk Hc. split; apply (sweep_sound _ _ 24 10); try assumption; vm_cast_no_check (eq_refl true).
 Qed.
 Print Assumptions c04_nft_all_exits_partial.
 
@@ -154,7 +154,7 @@ Proof.
   intros k cut Hk Hc H1 H2.
   assert (H : forallb (fun k => Nat.eqb k 21 || Nat.eqb k 27 ||
                         forallb (fun cut => sess_ok cfg_nat_user ex_state k cut) (seq 0 11)) (seq 0 36) = true)
-    by (vm_compute; reflexivity).
+    by (vm_cast_no_check (eq_refl true)).
   rewrite forallb_forall in H. specialize (H k). rewrite in_seq in H.
   assert (Hk' : 0 <= k < 0 + 36) by (split; [apply Nat.le_0_l | exact Hk]).
   specialize (H Hk'). apply orb_true_iff in H as [H|H].
